@@ -27,7 +27,7 @@ TRUSTED_BASE = [
 
 # which extracted parts each property's model depends on
 PARTS_OF = {
-    "C01": ["bond", "token", "dist"], "C02": ["bond", "token", "dist"], "C03": ["bond", "choose"], "C04": ["bond"],
+    "C01": ["bond", "token", "dist", "mixture"], "C02": ["bond", "token", "dist"], "C03": ["bond", "choose"], "C04": ["bond"],
     "C05": ["bond"], "C06": ["bond", "loops"], "C07": ["bond", "loops"], "C08": ["bond", "choose"], "C09": ["dist", "bond", "loops"], "C10": ["bond"],
     "C11": ["dist"], "C12": ["mixture"], "C13": ["bond", "loops"], "C14": ["loops"], "C15": ["bond", "token", "dist"], "C16": ["bond", "choose"],
     "C17": ["bond"], "C18": ["bond", "masses"], "C19": ["bond"], "C20": ["ffcache", "fftables"],
